@@ -700,6 +700,7 @@ func RunC19(ctx *core.Ctx) *core.Violation {
 	}
 	ref := append([]byte(nil), prefix...)
 	wle := m.le
+	mib := false
 	var ops []wrOp
 	nW := t.Weighted(1, 3, 6, 3)
 	nW = []int{0, 1 + t.Draw(2), 3 + t.Draw(6), 9 + t.Draw(24)}[nW]
@@ -723,6 +724,11 @@ func RunC19(ctx *core.Ctx) *core.Violation {
 			if t.Chance(1, 40) {
 				ln = t.Pick(t.Range(1000, 9000), 4095, 4096, 4097, 65535, 65536, 70000) // larger than a page, around thresholds
 				ctx.Count("probe_big_blob")
+				if t.Chance(1, 60) {
+					ln = t.Pick(1<<20+1, 1<<20+4097, 3<<19, 2<<20+5) + t.Draw(2) // a record above 1 MiB
+					mib = true
+					ctx.Count("probe_mib_blob")
+				}
 			}
 			op.b = genData(t, ln, 2)
 			ref = append(ref, op.b...)
@@ -746,6 +752,16 @@ func RunC19(ctx *core.Ctx) *core.Violation {
 	if len(W) > 0 && t.Chance(1, 3) {
 		T = t.Draw(len(W) + 1)
 		truncated = T < len(W)
+	}
+	if mib && t.Chance(1, 2) {
+		// a very large record cut short somewhere in its last part, on a forward-only stream as
+		// often as on all other backends together
+		T = len(W) - 1 - t.Draw(min(len(W), 1<<20))
+		truncated = true
+		if t.Chance(1, 2) {
+			m.be = beStream
+		}
+		ctx.Count("probe_mib_blob_truncated")
 	}
 	m.data = W[:T:T]
 	m.size = int64(T)
